@@ -78,3 +78,128 @@ def h_subtree_prefix(I, fi):
 
 
 SUB_COVERS = ["all-outliers", "has-clones", "all-outliers+outliers", "has-clones+outliers"]
+
+
+def h_correct_weights(I, fi):
+    """ParticleGibbsSubtreeSampler._correct_weights, for any number of particles and any number of outliers in a particle's subtree: every particle's subtree is grafted
+    under `parent` into a COPY of the remaining tree, every outlier of the subtree is moved into that copy's outlier list (no data point is lost), the copy is updated and
+    becomes the particle's tree; the weight changes by (log_p_one of the full tree) - (log_p_one of the subtree); the new swarm holds one entry per particle.
+    (That the resulting move targets the posterior is NOT claimed - recorded finding K01.)"""
+    from pyvc.alg import Num
+    P = I.P
+    n = alg.sym("n_particles", "Int")
+    P.assume(P.z(n) >= 1)
+    log = []
+
+    def k_(x):
+        return x.key() if isinstance(x, Num) else x
+
+    class SubTree(Model):
+        def __init__(self, j):
+            self.j = j
+
+        def a_outliers(self, I_):
+            m = alg.raw_app("n_sub_outliers", self.j, sort="Int")
+            I_.P.assume(I_.P.z(m) >= 0)
+            return SymSeq("subtree.outliers", m, lambda t: ("outlier", k_(self.j), k_(I_.to_num(t))))
+
+    class NewTree(Model):
+        def __init__(self, of):
+            self.of = of
+
+        def m_add_subtree(self, I_, sub, parent=None):
+            log.append(("graft", self, sub, parent))
+
+        def m_add_data_point_to_outliers(self, I_, dp):
+            log.append(("outlier", self, dp))
+
+        def m_update(self, I_):
+            log.append(("update", self))
+
+    class Rest(Model):
+        def m_copy(self, I_):
+            t = NewTree(self)
+            log.append(("copy", t))
+            return t
+
+        def m_add_subtree(self, I_, sub, parent=None):
+            log.append(("graft-into-the-original", sub))
+
+        def m_add_data_point_to_outliers(self, I_, dp):
+            log.append(("outlier-into-the-original", dp))
+
+        def m_update(self, I_):
+            log.append(("update-of-the-original",))
+
+    class Part(Model):
+        def __init__(self, j):
+            self.j, self.cur = j, SubTree(j)
+
+        def a_tree(self, I_):
+            return self.cur
+
+        def set_tree(self, I_, v):
+            log.append(("set-tree", self, v))
+            self.cur = v
+
+        def a_log_p_one(self, I_):
+            log.append(("read-log_p_one", self, self.cur))
+            return alg.raw_app("lp1_full" if isinstance(self.cur, NewTree) else "lp1_sub", self.j)
+
+    class Swarm(Model):
+        def a_particles(self, I_):
+            return SymSeq("particles", n, lambda j: Part(I_.to_num(j)))
+
+        def a_unnormalized_log_weights(self, I_):
+            return SymSeq("weights", n, lambda j: alg.raw_app("w", I_.to_num(j)))
+
+    class NewSwarm(Model):
+        def m_add_particle(self, I_, w, p):
+            log.append(("add-particle", w, p))
+
+    ns = NewSwarm()
+    I.registry.class_models["ParticleSwarm"] = lambda I_, *a, **k: ns
+    rest, parent = Rest(), ("parent",)
+    sampler = Obj(fi.cls)
+    I.registry.generic_loops.add(fi.qualname)
+    out = I.call_function(fi, [sampler, parent, Swarm(), rest], {}, force_inline=True)
+    dsl.cover(I, "correct_weights")
+    gens = P.ghost.get("generic_indices", [])
+    P.check("subtree.correct.returns-the-new-swarm", out is ns, "a new swarm is built and returned", kind="post")
+    bad = [e for e in log if e[0] in ("graft-into-the-original", "outlier-into-the-original", "update-of-the-original")]
+    P.check("subtree.correct.remaining-tree-untouched", not bad, "the remaining tree is only copied (every particle gets its own copy)", kind="post")
+    copies = [e for e in log if e[0] == "copy"]
+    grafts = [e for e in log if e[0] == "graft"]
+    sets = [e for e in log if e[0] == "set-tree"]
+    adds = [e for e in log if e[0] == "add-particle"]
+    ok = len(gens) >= 1 and len(copies) == 1 and len(grafts) == 1 and len(sets) == 1 and len(adds) == 1
+    if not ok:
+        P.check("subtree.correct.one-tree-per-particle", False, "per particle: one copy, one graft, one assignment, one swarm entry", kind="post")
+        return
+    j = gens[0]
+    nt = copies[0][1]
+    part = sets[0][1]
+    P.check("subtree.correct.one-tree-per-particle", grafts[0][1] is nt and isinstance(grafts[0][2], SubTree) and (grafts[0][2].j - j).is_zero() and grafts[0][3] == parent and sets[0][2] is nt
+            and (part.j - j).is_zero() and adds[0][2] is part,
+            "particle j's own subtree is grafted under the given parent into its copy, the copy becomes particle j's tree, particle j enters the new swarm", kind="post")
+    outs = [e for e in log if e[0] == "outlier"]
+    if len(gens) >= 2:
+        dsl.cover(I, "correct_weights.outlier")
+        t = gens[1]
+        P.check("subtree.correct.outliers-moved-to-the-full-tree", len(outs) == 1 and outs[0][1] is nt and outs[0][2] == ("outlier", j.key(), t.key()),
+                "every outlier of the particle's subtree is added to the outliers of the full tree (no data point is lost)", kind="post")
+    else:
+        dsl.cover(I, "correct_weights.no-outlier")
+        P.check("subtree.correct.no-outlier-nothing-added", not outs, "a subtree without outliers adds none", kind="post")
+    order = [e[0] for e in log if e[0] in ("copy", "graft", "outlier", "update", "set-tree", "read-log_p_one", "add-particle")]
+    upd = [i for i, e in enumerate(order) if e == "update"]
+    ok_order = len(upd) == 1 and order.index("graft") < upd[0] < order.index("set-tree") and all(i < upd[0] for i, e in enumerate(order) if e == "outlier") \
+        and order.count("read-log_p_one") == 2 and order.index("read-log_p_one") < order.index("copy") and order.index("set-tree") < len(order) - 1 - order[::-1].index("read-log_p_one") < order.index("add-particle")
+    P.check("subtree.correct.updated-before-use", ok_order, "the subtree's density is read before anything changes, the full tree is updated after grafting and moving the outliers and before it is "
+            "assigned, its density is read after the assignment", kind="post")
+    w = adds[0][1]
+    want = alg.raw_app("w", j) - alg.raw_app("lp1_sub", j) + alg.raw_app("lp1_full", j)
+    P.check("subtree.correct.weight", isinstance(w, Num) and (w - want).is_zero(), "new weight = old weight - log_p_one(subtree) + log_p_one(full tree)", kind="post")
+
+
+CORRECT_COVERS = ["correct_weights", "correct_weights.outlier", "correct_weights.no-outlier"]
